@@ -449,6 +449,49 @@ func runC12(c *mc.Ctx) {
 			cl = append(cl, v)
 		}
 		sort.Slice(cl, func(i, j int) bool { return cl[i] < cl[j] })
+		// every NUMBER of unused flag bytes 1..600 (two fills) behind every accepted message of <= 4
+		// transactions with a one-byte flag string: "a whole byte of flag bits unused" however many there
+		// are (a leftover measured in a narrow type wraps at 32 and 8192 bytes; the latter on thorough)
+		{
+			var bases []c12Msg
+			for n := uint32(1); n <= 4; n++ {
+				for l := 1; l <= 4; l++ {
+					for i := int64(0); i < ipow(2, l); i++ {
+						hl := string(bytesOfLen([]byte("12"), l, i))
+						for fb := 0; fb < 256; fb++ {
+							fl := []byte{byte(fb)}
+							var hs []ref.Hash32
+							for k := 0; k < len(hl); k++ {
+								hs = append(hs, c12Hash(hl[k], 0))
+							}
+							if _, _, reason := ref.PMTExtract(n, hs, fl, merkleblock.MaxTxnCount); reason == "" {
+								bases = append(bases, c12Msg{NumTx: n, Hashes: hl, Flags: fmt.Sprintf("%02x", fb)})
+								break // one accepted flag byte per (count, hash list)
+							}
+						}
+					}
+				}
+			}
+			extras := []int{}
+			for k := 1; k <= 600; k++ {
+				extras = append(extras, k)
+			}
+			if c.Thorough() {
+				extras = append(extras, 8191, 8192, 8193, 65535, 65536, 65537)
+			}
+			c.Space("accepted small messages followed by 1..600 unused flag bytes (fills 00 and ff)", int64(len(bases)*len(extras)*2))
+			c.ParFor(int64(len(bases)*len(extras)), func(w *mc.W, i int64) {
+				b := bases[i/int64(len(extras))]
+				k := extras[i%int64(len(extras))]
+				for _, fill := range []string{"00", "ff"} {
+					m := b
+					m.Flags += strings.Repeat(fill, k)
+					w.State()
+					c12Eval(w, m)
+				}
+			})
+			c.Note("accepted_small_messages_used_as_bases", len(bases))
+		}
 		shapes := []c12Msg{{Hashes: "0", Flags: "00"}, {Hashes: "0", Flags: "01"}, {Hashes: "01", Flags: "07"}, {Hashes: "", Flags: ""}}
 		c.Space("transaction counts at the wrap points of count*d (d <= 64), powers of two, 3*2^j and around the limit x 4 trivial messages", int64(len(cl)*len(shapes)))
 		c.ParFor(int64(len(cl)*len(shapes)), func(w *mc.W, i int64) {
